@@ -324,20 +324,20 @@ class Scenario:
                     w.human_ckpt([f], cwd=repo)
         else:
             before = list(lines)
-            w.human_ckpt([f], cwd=repo)
+            self.pre_ai(author, f, repo)
             if "repeat" in self.variant and self.vrng.random() < 0.4:
-                w.human_ckpt([f], cwd=repo)
+                self.pre_ai(author, f, repo)
                 self.stats["variant_repeat"] += 1
             d = self.edit_lines(lines, author, kinds, ck)
             mid = self.split_point(before, lines, d) if "split" in self.variant else None
             if mid is not None:
                 self.write(f, mid, repo)
-                w.ai_ckpt(author, [f], cwd=repo, messages=self.transcript(author))
+                self.post_ai(author, f, repo)
                 self.stats["variant_split"] += 1
             self.write(f, lines, repo)
-            w.ai_ckpt(author, [f], cwd=repo, messages=self.transcript(author))
+            self.post_ai(author, f, repo)
             if "repeat" in self.variant and self.vrng.random() < 0.4:
-                w.ai_ckpt(author, [f], cwd=repo, messages=self.transcript(author))
+                self.post_ai(author, f, repo)
                 self.stats["variant_repeat"] += 1
         if "readonly" in self.variant and self.vrng.random() < 0.5:
             self.readonly_cmds(repo, f)
@@ -347,6 +347,14 @@ class Scenario:
         if author != "human":
             self.stats["ai_edits"] += 1
         return d
+
+    def pre_ai(self, session, f, repo=None):
+        """Checkpoint an agent sends before it edits f (human checkpoint)."""
+        self.w.human_ckpt([f], cwd=repo)
+
+    def post_ai(self, session, f, repo=None):
+        """Checkpoint an agent sends after it edited f."""
+        self.w.ai_ckpt(session, [f], cwd=repo, messages=self.transcript(session))
 
     def transcript(self, session):
         return None
